@@ -36,16 +36,36 @@ def _row_loop(fn):
     return loops[-1] if loops else None
 
 
-def _distance_expr_ok(s):
-    """cdist(self.contexts, row[np.newaxis, :], metric=self.metric) flattened"""
+def _distance_expr_ok(s, row="row"):
+    """cdist(self.contexts, <row as 1 x d>, metric=self.metric) flattened"""
     for fl in FLATTEN:
         if s.endswith(fl):
             core = s[:-len(fl)]
-            return core in ("cdist(self.contexts, row[np.newaxis, :], metric=self.metric)",
-                            "cdist(self.contexts, row.reshape(1, -1), metric=self.metric)",
-                            "cdist(self.contexts, np.atleast_2d(row), metric=self.metric)",
-                            "cdist(self.contexts, row[None, :], metric=self.metric)")
+            return core in ("cdist(self.contexts, %s[np.newaxis, :], metric=self.metric)" % row,
+                            "cdist(self.contexts, %s.reshape(1, -1), metric=self.metric)" % row,
+                            "cdist(self.contexts, np.atleast_2d(%s), metric=self.metric)" % row,
+                            "cdist(self.contexts, %s[None, :], metric=self.metric)" % row)
     return False
+
+
+SELECTION_PATTERNS = ("_X_ = np.where(_EC_)", "_X_ = np.nonzero(_EC_)", "_X_ = np.flatnonzero(_EC_)",
+                      "_X_ = np.argpartition(_ED_, _EK_)[:_ES_]", "_X_ = np.argsort(_ED_)[:_ES_]")
+
+
+def _selection(loop):
+    """(assignment node, bindings) of the neighbour selection in a row loop"""
+    from .pattern import find
+    for p in SELECTION_PATTERNS:
+        n, b = find(p, loop)
+        if n is not None:
+            return n, b
+    return None, None
+
+
+def _row_names(loop):
+    if isinstance(loop.target, ast.Tuple) and len(loop.target.elts) == 2:
+        return ast.unparse(loop.target.elts[0]), ast.unparse(loop.target.elts[1])
+    return "index", "row"
 
 
 def check(ctx):
@@ -61,79 +81,62 @@ def check(ctx):
     fr = prog.method("_Radius", "_predict_contexts")
     ctx.saw_fn(fr)
     loop = _row_loop(fr)
-    sel = None
-    for n in ast.walk(loop) if loop is not None else []:
-        if isinstance(n, ast.Assign) and ast.unparse(n.targets[0]) == "indices":
-            sel = n
-    if sel is None:
-        ctx.undecided("R3.1", "_Radius: no `indices = ...` in the row loop", fr.node, fr,
+    from .c15 import _inline
+    from .pattern import match, any_match
+    sel, sb = _selection(loop) if loop is not None else (None, None)
+    X = sb["_X_"] if sb else None
+    if sel is None or "_EC_" not in sb:
+        ctx.undecided("R3.1", "_Radius: the neighbour selection is not np.where(<condition>)", fr.node, fr,
                       construct="def _Radius._predict_contexts")
     else:
-        v = sel.value
-        arg = v.args[0] if isinstance(v, ast.Call) and ast.unparse(v.func) in ("np.where", "np.nonzero",
-                                                                             "np.flatnonzero") and v.args else None
-        if arg is None:
-            ctx.undecided("R3.1", "_Radius: selection is not np.where(<condition>)", sel, fr, ast.unparse(v))
-        else:
-            import copy
-            from .c15 import _inline
-            raw = ast.unparse(arg)
-            # which name is the distance vector?
-            names = [x.id for x in ast.walk(arg) if isinstance(x, ast.Name) and x.id not in ("np", "self")]
-            d = names[0] if names else "?"
-            ok = raw in [t.format(d=d) for t in INCLUSIVE]
-            ctx.check(ok, "R3.1", "Radius selects rows whose distance is at most the radius (boundary included)", sel,
-                      fr, "selector `%s` is not an inclusive comparison with self.radius" % raw)
-            dx = ast.unparse(_inline(loop, ast.Name(id=d, ctx=ast.Load())))
-            ctx.check(_distance_expr_ok(dx), "R3.3", "Radius distances: cdist(stored contexts, row as 1 x d, metric), "
-                      "flattened", sel, fr, "distance expression `%s`" % dx, construct="distance vector of _Radius")
+        idx_name, row_name = _row_names(loop)
+        cond = sel.value.args[0]
+        inc = any_match(("_ED_ <= self.radius", "self.radius >= _ED_", "np.less_equal(_ED_, self.radius)",
+                         "~(_ED_ > self.radius)", "np.logical_not(_ED_ > self.radius)"), cond)
+        ctx.check(inc is not None, "R3.1", "Radius selects rows whose distance is at most the radius (boundary "
+                  "included)", sel, fr, "selector `%s` is not an inclusive comparison with self.radius" %
+                  ast.unparse(cond))
+        if inc is not None:
+            dnode = ast.parse(inc["_ED_"], mode="eval").body
+            dx = " ".join(ast.unparse(_inline(loop, dnode)).split())
+            ctx.check(_distance_expr_ok(dx, row_name), "R3.3", "Radius distances: cdist(stored contexts, row as 1 x d, "
+                      "metric), flattened", sel, fr, "distance expression `%s`" % dx,
+                      construct="distance vector of _Radius")
     # guard of the empty branch
-    if loop is not None:
+    if loop is not None and X is not None:
         ifs = [s for s in loop.body if isinstance(s, ast.If)]
         okg = False
         gt = ""
         if ifs:
             iff = ifs[-1]
             gt = ast.unparse(iff.test)
-            okg = gt in ("indices[0].size > 0", "indices[0].size", "len(indices[0]) > 0", "indices[0].size != 0",
-                         "len(indices[0])") and "_get_nhood_predictions" in ast.unparse(iff.body[0]) and \
-                iff.orelse and "_get_no_nhood_predictions" in ast.unparse(iff.orelse[0])
+            okg = any_match(("_X_[0].size > 0", "_X_[0].size", "len(_X_[0]) > 0", "_X_[0].size != 0", "len(_X_[0])"),
+                            iff.test, {"_X_": X}) is not None and \
+                "_get_nhood_predictions" in ast.unparse(iff.body[0]) and \
+                bool(iff.orelse) and "_get_no_nhood_predictions" in ast.unparse(iff.orelse[0])
         ctx.check(okg, "R3.6", "Radius takes the empty-neighbourhood path exactly when no row was selected",
                   ifs[-1] if ifs else loop, fr, "guard `%s`" % gt, construct="empty-neighbourhood guard of _Radius")
     # ---------------------------------------------------------------- R3.2 / R3.3 KNearest
     fk = prog.method("_KNearest", "_predict_contexts")
     ctx.saw_fn(fk)
     loopk = _row_loop(fk)
-    selk = None
-    for n in ast.walk(loopk) if loopk is not None else []:
-        if isinstance(n, ast.Assign) and ast.unparse(n.targets[0]) == "indices":
-            selk = n
-    if selk is None:
-        ctx.undecided("R3.2", "_KNearest: no `indices = ...`", fk.node, fk, construct="def _KNearest._predict_contexts")
+    selk, kb = _selection(loopk) if loopk is not None else (None, None)
+    if selk is None or "_ED_" not in kb:
+        ctx.undecided("R3.2", "_KNearest: the neighbour selection is not argpartition/argsort of the distances",
+                      fk.node, fk, construct="def _KNearest._predict_contexts")
     else:
-        v = selk.value
-        s = ast.unparse(v)
-        ok = False
-        d = None
-        if isinstance(v, ast.Subscript) and isinstance(v.slice, ast.Slice) and v.slice.lower is None and \
-                isinstance(v.value, ast.Call):
-            stop = ast.unparse(v.slice.upper) if v.slice.upper is not None else None
-            f = ast.unparse(v.value.func)
-            if f == "np.argpartition" and len(v.value.args) == 2:
-                d = ast.unparse(v.value.args[0])
-                kth = ast.unparse(v.value.args[1])
-                ok = stop == "self.k" and kth == "self.k - 1"
-            elif f == "np.argsort" and len(v.value.args) == 1:
-                d = ast.unparse(v.value.args[0])
-                ok = stop == "self.k"
+        idx_name, row_name = _row_names(loopk)
+        if "_EK_" in kb:
+            ok = kb["_ES_"] == "self.k" and kb["_EK_"] == "self.k - 1"
+        else:
+            ok = kb["_ES_"] == "self.k"
         ctx.check(ok, "R3.2", "KNearest takes the k smallest distances (pivot k-1, first k)", selk, fk,
-                  "selection `%s`" % s)
-        if d is not None:
-            from .c15 import _inline
-            dx = ast.unparse(_inline(loopk, ast.Name(id=d, ctx=ast.Load())))
-            ctx.check(_distance_expr_ok(dx), "R3.3", "KNearest distances: cdist(stored contexts, row as 1 x d, "
-                      "metric), flattened", selk, fk, "distance expression `%s`" % dx,
-                      construct="distance vector of _KNearest")
+                  "selection `%s`" % ast.unparse(selk.value))
+        dnode = ast.parse(kb["_ED_"], mode="eval").body
+        dx = " ".join(ast.unparse(_inline(loopk, dnode)).split())
+        ctx.check(_distance_expr_ok(dx, row_name), "R3.3", "KNearest distances: cdist(stored contexts, row as 1 x d, "
+                  "metric), flattened", selk, fk, "distance expression `%s`" % dx,
+                  construct="distance vector of _KNearest")
     # ---------------------------------------------------------------- R3.4 history
     ff = prog.method("_Neighbors", "fit")
     src = {ast.unparse(s.targets[0]): ast.unparse(s.value) for s in ast.walk(ff.node) if isinstance(s, ast.Assign)
@@ -213,9 +216,12 @@ def check(ctx):
     ctx.floor("R3.6", "neighbourhood configurations checked for NaN expectations", n_nan, 9)
     fn0 = prog.method("_Neighbors", "_get_no_nhood_predictions")
     ctx.saw_fn(fn0)
-    src0 = " ".join(ast.unparse(fn0.node).split())
-    okc = "lp.rng.choice(len(self.arms), size=1, p=self.no_nhood_prob_of_arm)[0]" in src0 and \
-        "return self.arms[rand_int]" in src0 and "return self.arm_to_expectation.copy()" in src0
+    from .pattern import find
+    n1, b1 = find("_R_ = lp.rng.choice(len(self.arms), size=1, p=self.no_nhood_prob_of_arm)[0]", fn0.node)
+    n2, _ = find("return self.arms[_R_]", fn0.node, b1) if b1 else (None, None)
+    n2b, _ = find("return self.arms[lp.rng.choice(len(self.arms), size=1, p=self.no_nhood_prob_of_arm)[0]]", fn0.node)
+    n3, _ = find("return self.arm_to_expectation.copy()", fn0.node)
+    okc = (n2 is not None or n2b is not None) and n3 is not None
     ctx.check(okc, "R3.6", "empty neighbourhood: predict draws an index into the arm list with the configured "
               "probabilities from the row generator; expectations are a copy of the NaN dictionary", fn0.node, fn0,
               construct="def _Neighbors._get_no_nhood_predictions")
